@@ -323,6 +323,17 @@ def gen_ipc(ctx):
             n = rng.randrange(3)
             ops += [poll("m", addr=a, t=t, n=n), "cm,%d" % (2 if n in (0, 1) else 0)]
         add(1, ops + ["pr", "ze", "pr"], "ipc-unique-addresses")
+    # addresses net.ParseIP does not accept (a zone-scoped link-local address is what RemoteAddr gives for such a peer; a
+    # host name; an out-of-range quad): each is an address of its own in the unique-address figures, country ??
+    odd = [("fe80::1%eth0", "??"), ("fe80::2%eth0", "??"), ("fe80::1%eth1", "??"), ("not-an-ip", "??"), ("999.1.1.1", "??"), ("1.2.3", "??")]
+    for ts in ([0, 0, 0], [0, 0, 4, 4], [5, 6, 5, 6, 0], [1, 1, 1, 1, 1, 1]):
+        for g in (1, 0):
+            ops = []
+            for k, t in enumerate(ts):
+                n = rng.randrange(3)
+                ops += [poll("m", addr=odd[k % len(odd)], t=t, n=n), "cm,%d" % (2 if n in (0, 1) else 0)]
+            ops += [poll("m", addr=a, t=ts[0], n=1), "cm,2", poll("m", addr=odd[0], t=ts[0], n=1), "cm,2"]
+            add(g, ops + ["pr", "ze", "pr"], "ipc-unparseable-addresses")
     # NAT-type and country figures: what counts is the FIRST accepted poll of each (type, address) in the period
     b = tab[1] if len(tab) > 1 else tab[0]
     for seq in ([(a, 0, 1), (a, 1, 2), (a, 0, 2)], [(a, 0, 0), (b, 0, 1), (a, 4, 2), (a, 5, 1)], [(a, 0, 2), (a, 0, 1), (b, 3, 2), (b, 3, 0)],
